@@ -36,6 +36,8 @@ type cs struct {
 	OT    string        `json:"ot"`
 	Seed  uint64        `json:"seed"`
 	Curve string        `json:"curve,omitempty"`
+	// RandChunk > 0: the randomness sources return at most that many bytes per Read (short reads)
+	RandChunk int `json:"rand_chunk,omitempty"`
 }
 
 type hit struct {
@@ -117,7 +119,7 @@ func runCase(ctx *runner.Ctx, k cs) {
 		return
 	}
 	var r *sess.Result
-	o := sess.Opts{OT: k.OT, Seed: k.Seed, Record: true}
+	o := sess.Opts{OT: k.OT, Seed: k.Seed, Record: true, RandChunk: k.RandChunk}
 	var region func(off int) string
 	if k.Mode == "circuit" {
 		var c *circuit.Circuit
@@ -350,6 +352,25 @@ func work(ctx *runner.Ctx) {
 	}
 	cases = append(cases, cs{Mode: "circuit", Src: "package main\nfunc main(a, b uint8) (uint8, uint8) {\n\treturn a * b, a / (b | 1)\n}\n", G: "201", E: "77", OT: "co"})
 	cases = append(cases, cs{Mode: "circuit", Src: "package main\nfunc main(a, b uint8) (uint8, uint8) {\n\treturn a * b, a / (b | 1)\n}\n", G: "201", E: "77", OT: "cot"})
+	// randomness sources that return short reads (an io.Reader may): whole-circuit and streaming sessions with
+	// 8..300 input bits per party, chunk limits below, at and above a label (16 bytes) and a batch of labels
+	wideX := "package main\nfunc main(a, b uint300) uint300 {\n\treturn a ^ b\n}\n"
+	wideAnd := "package main\nfunc main(a, b uint70) (uint70, bool) {\n\treturn a & b, a > b\n}\n"
+	pat := new(big.Int)
+	pat.SetString("5a3c96e1f00f1234567893cafebabe0123456789abcdef5a5a5a5a3c3c3c3c9696969", 16)
+	pat2 := new(big.Int).Rsh(pat, 3)
+	for ci, ch := range []int{1, 5, 16, 17, 100, 1000, 1024} {
+		if quick && ci%2 == 1 {
+			continue
+		}
+		for _, o := range []string{"co", "cot"} {
+			cases = append(cases, cs{Mode: "circuit", Src: wideX, G: pat.String(), E: pat2.String(), OT: o, Seed: uint64(ctx.Seed), RandChunk: ch})
+			cases = append(cases, cs{Mode: "circuit", Src: wideAnd, G: new(big.Int).Rsh(pat, 210).String(), E: new(big.Int).Rsh(pat2, 209).String(), OT: o, Seed: uint64(ctx.Seed), RandChunk: ch})
+		}
+		cases = append(cases, cs{Mode: "circuit", Src: "package main\nfunc main(a, b uint8) (uint8, uint8) {\n\treturn a * b, a / (b | 1)\n}\n", G: "201", E: "77", OT: "co", RandChunk: ch})
+		cases = append(cases, cs{Mode: "stream", Src: wideAnd, G: new(big.Int).Rsh(pat, 210).String(), E: new(big.Int).Rsh(pat2, 209).String(), OT: "co", Seed: uint64(ctx.Seed), RandChunk: ch})
+		cases = append(cases, cs{Mode: "stream", Src: streamPrograms[0], G: "5", E: "10", OT: "cot", Seed: uint64(ctx.Seed), RandChunk: ch})
+	}
 	// streaming sessions
 	for pi, p := range streamPrograms {
 		ins := [][2]string{{"5", "10"}, {"15", "7"}, {"3", "3"}, {"0", "15"}}
